@@ -127,3 +127,71 @@ Proof.
   - destruct (guard_never_fires _ _ _ _ _ _ StatesFF_AMBER.state_exact StatesFF_AMBER.strand_exact StatesFF_AMBER.round4_facts StatesFF_AMBER.water_neutral _ _ V (Permutation_refl _)) as [_ [H _]]. exact H.
   - exact guard_stage_exists.
 Qed.
+
+(* ------------------------------------------------------------------ *)
+(* HISTORIES.  C12 quantifies over process histories too: the 2nd, 3rd ... attempt in one
+   process behaves like the first.  In the model a run is a function of ITS inputs (the fault
+   vector = which stage fails on this input, and the content it would write) and of the file
+   state it starts from; nothing else is carried from run to run.  [run_seq] threads the file
+   state through a sequence of runs (a file completed by one run is an old file for the next). *)
+Definition settle {C : Type} (f : fstate C) : fstate C :=
+  match f with Complete c => Old c | x => x end.
+
+Fixpoint run_seq {C : Type} (ds : list sdesc) (inputs : list ((nat -> fault) * C)) (f : fstate C)
+  : list (outcome * fstate C) :=
+  match inputs with
+  | [] => []
+  | (flt, c) :: r => let res := frun ds 0 flt c f in res :: run_seq ds r (settle (snd res))
+  end.
+
+(* the outcome of a run (raised where / finished) does not depend on the file state it starts from *)
+Lemma frun_outcome_indep (C : Type) ds : forall i flt (c : C) f f',
+  fst (frun ds i flt c f) = fst (frun ds i flt c f').
+Proof.
+  induction ds as [|d r IH]; intros i flt c f f'; cbn [frun]; [reflexivity|].
+  destruct (faulty (flt i)); [destruct (sd_swallow d); [apply IH | reflexivity] | apply IH].
+Qed.
+
+(* history form: the outcomes of a sequence of runs are the outcomes of the single runs, for
+   ALL stage lists, ALL input sequences and ALL initial file states *)
+Theorem run_seq_outcomes (C : Type) ds : forall inputs (f : fstate C),
+  map fst (run_seq ds inputs f)
+  = map (fun ic : (nat -> fault) * C => fst (frun ds 0 (fst ic) (snd ic) Absent)) inputs.
+Proof.
+  induction inputs as [|[flt c] r IH]; intros f; cbn [run_seq map fst snd]; [reflexivity|].
+  rewrite IH. f_equal. apply frun_outcome_indep.
+Qed.
+
+(* a history of failing runs (each fails in front of the writer) leaves the file at the output
+   path exactly as it was before the first attempt, and every attempt raises *)
+Theorem failing_history_keeps_file (C : Type) ds :
+  c12_obligation ds = true ->
+  forall inputs (f : fstate C), settle f = f ->
+    Forall (fun ic : (nat -> fault) * C => exists j, j < writer_index ds /\ faulty (fst ic j) = true) inputs ->
+    Forall (fun res => snd res = f /\ exists i, fst res = Raised i) (run_seq ds inputs f).
+Proof.
+  intros Hob inputs f Hs H. induction H as [|[flt c] r Hx H IH]; cbn [run_seq]; [constructor|].
+  destruct (no_partial_output C ds Hob flt c f) as [Hfail _].
+  destruct (Hfail Hx) as [Hf Hr]. cbn [fst] in *.
+  constructor; [split; assumption|]. rewrite Hf, Hs. exact IH.
+Qed.
+
+Lemma run_seq_nonempty (C : Type) ds inputs x (f : fstate C) : run_seq ds (inputs ++ [x]) f <> [].
+Proof. destruct inputs as [|[a b] r]; destruct x; cbn; discriminate. Qed.
+
+(* after any history of failing runs, a fault-free run ends exactly like a fresh one *)
+Theorem ok_after_failing_history (C : Type) ds :
+  c12_obligation ds = true ->
+  forall inputs (f : fstate C) flt c, settle f = f ->
+    Forall (fun ic : (nat -> fault) * C => exists j, j < writer_index ds /\ faulty (fst ic j) = true) inputs ->
+    (forall k, k < List.length ds -> faulty (flt k) = false) ->
+    List.last (run_seq ds (inputs ++ [(flt, c)]) f) (Finished, f) = (Finished, Complete c).
+Proof.
+  intros Hob inputs f flt c Hs H Hok. induction H as [|[flt0 c0] r Hx H IH]; cbn [app run_seq].
+  - cbn. apply (no_fault_complete C ds Hob flt c f Hok).
+  - destruct (no_partial_output C ds Hob flt0 c0 f) as [Hfail _].
+    destruct (Hfail Hx) as [Hf _]. cbn [fst] in *. rewrite Hf, Hs.
+    destruct (run_seq ds (r ++ [(flt, c)]) f) eqn:E.
+    + exfalso. exact (run_seq_nonempty C ds r (flt, c) f E).
+    + rewrite <- E. cbn [List.last]. rewrite E in *. exact IH.
+Qed.
